@@ -78,7 +78,8 @@ VAROPS = {
     # a run-time empty string shares its address with the string stored just before it
     'sE': 'B$="he"+"ap":L$=LEFT$(B$,0)',
     'aC': 'DIM C%(3):C%(1)=11:C%(3)=33',
-    'aD': 'DIM D$(2):D$(1)="p":D$(2)="q"+"r"',
+    # D$(3) is a run-time empty string: it shares its address with the string stored just before it
+    'aD': 'DIM D$(3):D$(1)="p":D$(2)="q"+"r":D$(3)=LEFT$(D$(2),0)',
     'aE': 'DIM E!(1,2):E!(1,2)=2.5:E!(1,1)=7',
 }
 VARORDER = ['sA', 'sI', 'sD', 'sB', 'sH', 'sL', 'gc', 'sE', 'aC', 'aD', 'aE']
@@ -108,7 +109,7 @@ def _apply_varop(m, op, base):
         v = [0, 11, 0, 33]
         ar['C%'] = v[base:]
     elif op == 'aD':
-        v = [b'', b'p', b'qr']
+        v = [b'', b'p', b'qr', b'']
         ar['D$'] = v[base:]
     elif op == 'aE':
         v = [[0.0, 0.0, 0.0], [0.0, 7.0, 2.5]]
